@@ -1144,7 +1144,9 @@ var dpFaultKinds = func() []dpFaultKind {
 			ks = append(ks, dpFaultKind{fam: fam, s: s})
 		}
 	}
-	strs(fBadType, "strin", "integer32", "octets[]", "octets[x]", "octets[1", "octets[99999999999]", "text")
+	strs(fBadType, "strin", "integer32", "octets[]", "octets[x]", "octets[1", "octets[99999999999]", "text",
+		// (short tokens that end like a sized type: whatever the parser slices off them must be guarded)
+		"]", "a]", "[]", "[1]", "tlv[2]", "byte]", "octet]", "octets]", "ctets[3]", "octets[3", "octets3]")
 	strs(fBadFlag, "hastag", "tagged", "encrypt", "has_tag,", ",concat", "HAS_TAG")
 	strs(fBadEnc, "encrypt=x", "encrypt=", "encrypt=99999999999")
 	strs(fRepFlag, "has_tag,has_tag", "concat,has_tag,concat", "encrypt=1,encrypt=2")
@@ -1605,7 +1607,7 @@ var dpSmallAlphabet = []byte{' ', '\t', '\n', '\r', '#', 'A', '1', '.', ',', '='
 
 var dpSoupWords = []string{"ATTRIBUTE", "VALUE", "VENDOR", "BEGIN-VENDOR", "END-VENDOR", "$INCLUDE", "string", "octets", "integer", "ipaddr", "date", "vsa", "tlv",
 	"octets[3]", "octets[", "OCTETS[16]", "String", "has_tag", "concat", "encrypt=1", "encrypt=2", "has_tag,concat", "encrypt=", "format=1,1", "format=2,0", "format=4,2", "format=1,9",
-	"0", "1", "2", "26", "255", "1.2", "1.2.3", "0x10", "0xFF", "4294967295", "-1", "+1", "a", "b", "c", "v", "w", "User-Name", "#", "#x", ",", "=", ".", "0x", "[", "]"}
+	"0", "1", "2", "26", "255", "1.2", "1.2.3", "0x10", "0xFF", "4294967295", "-1", "+1", "a", "b", "c", "v", "w", "User-Name", "#", "#x", ",", "=", ".", "0x", "[", "]", "tlv[2]", "x]", "[9]"}
 
 // dpSoup keeps a rough picture of the parser state so that most lines are acceptable where they
 // stand and a text reaches vendor blocks, duplicates, nested blocks … before its first fault.
